@@ -138,6 +138,14 @@ def _shard(args):
 OPT_PASS = bool(os.environ.get('VERIF_OPT_PASS'))
 
 
+def second_pass_env(seed):
+    """The rest of the second pass's interpreter configuration: an ASCII locale with UTF-8 mode switched off (what
+    open(), os.fsencode() and friends default to), and another string-hash seed (set and dict-of-set iteration order);
+    standard streams stay UTF-8 so that reports can be printed."""
+    return {'LC_ALL': 'C', 'PYTHONCOERCECLOCALE': '0', 'PYTHONUTF8': '0', 'PYTHONIOENCODING': 'utf-8',
+            'PYTHONHASHSEED': str(1000 + int(seed))}
+
+
 def _optimised_pass(prop, tier, seed):
     """The same check once more in an interpreter started with -O (assert statements and `if __debug__` blocks are
     compiled away - a common deployment setting under which every property must hold just the same).  Thinned; its
@@ -145,6 +153,7 @@ def _optimised_pass(prop, tier, seed):
     import subprocess
     env = dict(os.environ, VERIF_OPT_PASS='1', VERIF_NO_EVIDENCE='1', VERIF_SEED=str(seed))
     env.pop('PYTHONOPTIMIZE', None)
+    env.update(second_pass_env(seed))
     pr = subprocess.run([sys.executable, '-O', '-m', 'pbt.runner', prop, tier], cwd=core.VERIF_DIR, env=env,
                         capture_output=True, text=True)
     lines, cases = [], 0
@@ -372,7 +381,9 @@ def run_property(prop, tier, seed):
 def replay(path):
     rp = core.read_replay(path)
     if rp.get('python_optimize') and not sys.flags.optimize:
-        os.execv(sys.executable, [sys.executable, '-O', '-m', 'pbt.runner', '--replay', path])
+        env = dict(os.environ)
+        env.update(second_pass_env(rp.get('seed', os.environ.get('VERIF_SEED', '1') or 1)))
+        os.execve(sys.executable, [sys.executable, '-O', '-m', 'pbt.runner', '--replay', path], env)
     mod = _load(rp['property'])
     _quiet_twisted()
     sub = {s.name: s for s in mod.SUBCHECKS}[rp['subcheck']]
